@@ -85,6 +85,20 @@ def viral_stream(ck, q):
     g = GV.ViralGen(ck.rng, order_free_only=True, allow={'assign', 'filter', 'calc', 'rename', 'setop', 'keep', 'drop', 'dropv', 'sub', 'aggr', 'aggrc',
                                                           'unary', 'scalar', 'binary', 'cmp', 'bincmp', 'join'})
     cases = [g.case() for _ in range(40 if q else 800)]
+    # targeted: groups of several datapoints with DIFFERENT viral values, folded by every order-free rule that has two-value
+    # clauses (and by the aggregate rules), under the aggregating operators
+    for ri, rule in enumerate(GV.ORDER_FREE_BINARY + [GV.Rule('agg', fn='min'), GV.Rule('agg', fn='max')]):
+        for rep_ in range(2 if q else 10):
+            rows = []
+            for i1 in (1, 2, 3):
+                for i2 in ('a', 'b', 'c'):
+                    if ck.rng.random() < 0.85:
+                        rows.append((i1, i2, ck.rng.choice([1.5, 2.0, None, -3.25, 10.0]), ck.rng.choice(['A', 'B', 'C', 'A', 'B', 'Q', None])))
+            ck.rng.shuffle(rows)
+            env = {'DS_1': {'ids': [('Id_1', 'Integer'), ('Id_2', 'String')], 'meas': [('Me_1', 'Number')], 'viral': [('VAt_1', 'String')], 'rows': rows}}
+            for expr, op in (('sum(DS_1 group by Id_1)', 'aggr'), ('max(DS_1 group except Id_1)', 'aggr'), ('count(DS_1)', 'aggr'),
+                             ('DS_1[aggr Me_9 := min(Me_1) group by Id_2]', 'aggrc'), ('avg(DS_1 group by Id_1)[filter true]', 'aggr')):
+                cases.append({'vtl': '%s DS_r <- %s;' % (rule.vtl('R_VAt_1', 'VAt_1'), expr), 'env': env, 'ops': [op], 'spec': {'VAt_1': ('String', rule)}})
     seeds = [None, 1, 2] if q else [None, 1, 2, 3, 4]
     outs = V.run_viral(cases, seeds)
     hist = {}
@@ -99,7 +113,9 @@ def viral_stream(ck, q):
         for sd, o in zip(seeds[1:], outs[i][1:]):
             same, why = V.same_result(base, o)
             if not same:
-                rep = GV.case_to_json(c); rep.update({'perm_seed': sd, 'why': why, 'base': str(base)[:1200], 'permuted': str(o)[:1200]})
+                rep = (GV.case_to_json(c) if 'sx' in c else
+                       {'script': c['vtl'], 'structures': GV.structures(c['env']), 'data': {n: [list(r) for r in d['rows']] for n, d in c['env'].items()}})
+                rep.update({'perm_seed': sd, 'why': why, 'base': str(base)[:1200], 'permuted': str(o)[:1200]})
                 ck.violation('permutation-changes-result:viral:%s' % (c.get('ops') or ['?'])[-1], rep,
                              'permuting the input rows of a script with an order-free viral propagation rule changes the result: %s | %s' % (why[:160], c['vtl'][:160]))
                 break
